@@ -15,7 +15,7 @@ from lib import env
 from . import approx
 
 TITLE = 'C05: two-world (caller graph vs internal spanner) affinity inference over the approximate algorithms.'
-RULES = {'R06d': 2, 'R15b': 2, 'R05a': 3, 'R05b': 4, 'R05c': 1, 'R05d': 2, 'R05e': 5, 'R05f': 2, 'R15e': 10}
+RULES = {'R06d': 2, 'R15b': 2, 'R05h': 4, 'R05a': 3, 'R05b': 4, 'R05c': 1, 'R05d': 2, 'R05e': 5, 'R05f': 2, 'R15e': 10}
 DOCS = {
     'R05a': 'no internal descriptor escapes through the caller\'s iterator',
     'R05b': 'returned weight is accumulated from the caller\'s weight map for the emitted edges',
@@ -26,6 +26,7 @@ DOCS = {
     'R15e': 'same-world discipline of every BGL call in the approximate algorithms',
     'R06a': 'k = 0 rejected before anything is emitted',
     'R06b': 'closing path = Dijkstra on the weighted spanner',
+    'R05h': 'throws only for violated input preconditions',
     'R06d': 'each closing path comes from a search run for its own edge on freshly initialised maps',
     'R15a': 'retain/drop partition of the scanned edges',
     'R15b': 'hop bound 2k-1 and polarity of the test',
@@ -56,6 +57,8 @@ def run_rules(rep, tier, rules, floors, positive=True):
             pp = env.extract([pos], 'full', ('first:-I' + os.path.join(env.WITNESS, 'positive', 'broken_include'),))[pos]
             F, W = approx.analyse(pp)
             for r in rules:
+                if r == 'R05h':
+                    continue      # R05h only ever answers ok / undecided
                 rep.positive(r, 'witness/positive/approx_broken.cc',
                              any(f[0] == r and f[4] == 'violation' for f in F))
         except env.AnalysisBroken as e:
